@@ -520,7 +520,7 @@ Lemma R_step s e : e <> CreateChannel -> R s (step s e).
 Proof.
   intros Hne. destruct e; cbn [step]; try congruence.
   - (* Close *) apply R_close_with.
-  - (* Drop *) destruct (task_eqb (task s) TStarting); [apply R_w_misc | apply R_do_drop].
+  - (* Drop *) destruct (drop_deferred s); [apply R_w_misc | apply R_do_drop].
   - (* IceStop *) apply R_w_low. intros H; cl_open H; auto.
   - (* Negotiate *) destruct (ice_t s) eqn:E; try apply R_refl.
     eapply R_trans; [|apply R_w_misc]. apply R_w_low. intros H; cl_open H. rewrite E in Hd; discriminate.
@@ -709,7 +709,7 @@ Proof.
   destruct e; cbn [step];
     try (apply SG_same; dm; cbn; autorewrite with sigdb; reflexivity).
   - apply SG_close_with.
-  - destruct (task_eqb (task s) TStarting); [apply SG_same; reflexivity | apply SG_do_drop].
+  - destruct (drop_deferred s); [apply SG_same; reflexivity | apply SG_do_drop].
   - (* SigTo *) destruct (SignalingState_eqb (sig s) GClosed) eqn:E; [apply SG_same; reflexivity|].
     destruct (SignalingState_eqb g GClosed) eqn:E2; [apply SG_same; reflexivity|].
     intros H. cbn in H. subst g. discriminate.
